@@ -3,6 +3,7 @@ package compiler
 import (
 	"github.com/grafana/cog/internal/ast"
 	v "github.com/grafana/cog/internal/zzverif"
+	"github.com/grafana/cog/internal/zzverif/symir"
 )
 
 // c07Pass picks one user-configurable transformation with symbolic parameters.
@@ -10,7 +11,26 @@ func c07Pass() Pass {
 	obj := ObjectReference{Package: v.Str("pkg", "p", "q"), Object: v.Str("obj", "Foo", "foo", "Bar")}
 	field := FieldReference{Package: obj.Package, Object: obj.Object, Field: v.Str("fld", "a", "A", "b")}
 	as := ast.NewStruct(ast.NewStructField("n", ast.String()))
-	switch v.Choose(18) {
+	switch v.Choose(27) {
+	// transformations reachable only through schema-transformation YAML / used by some chains
+	case 18:
+		return &DisjunctionWithConstantToDefault{}
+	case 19:
+		return &NameAnonymousStruct{Field: field, As: "Named"}
+	case 20:
+		return &AnonymousStructsToNamed{}
+	case 21:
+		return &DisjunctionToType{}
+	case 22:
+		return &DisjunctionOfAnonymousStructsToExplicit{}
+	case 23:
+		return &DisjunctionInferMapping{}
+	case 24:
+		return &InferEntrypoint{}
+	case 25:
+		return &DataqueryIdentification{}
+	case 26:
+		return &Unspec{}
 	case 0:
 		return &RenameObject{From: obj, To: "Baz"}
 	case 1:
@@ -62,6 +82,7 @@ func VerifC07UserPasses() {
 	in := c05Schemas(g)
 	pass := c07Pass()
 	v.Observe(in)
+	v.Excuse("alias-cycle", symir.AliasCycle(in) || symir.LocalNameCycle(in))
 	v.Freeze(in)
 	_, _ = Passes{pass}.Process(in)
 	v.CheckFrozen()
